@@ -551,6 +551,12 @@ fn cmd_check(prop_s: &str, tier: &str) -> i32 {
         println!("NOTE: {debug_only} repeated validations of one parser returned results that are equal (==) but print differently through Debug (iteration order of a hash container inside the tree); C11 is decided by the library's own equality, so this is not reported as a violation");
         counters.insert("debug_only_differences_between_repeated_validations".to_owned(), debug_only);
     }
+    {
+        let n: u64 = counters.iter().filter(|(k, _)| k.starts_with("note_id_")).map(|(_, v)| *v).sum();
+        if n > 0 {
+            println!("NOTE: in {n} observations a result was tagged with an id that is equal (==) to, but not the same spelling / object as, the id given by the call that stored its latest content; C12 is decided by the id type's own equality, so this is not reported as a violation");
+        }
+    }
     if capped > 0 {
         println!("NOTE: wall-clock cap of {cap_s}s reached; {capped} runs were not executed (reported in evidence)");
     }
